@@ -2,7 +2,8 @@
    on the case lines written by the harness.
    case:  <id> <cap|D> (i <elem> <hash> | g <hash>)*   |   <id> S <cap> <lo> <hi>
    out:   <id> per call: index of the first call that returned the same arena id (N for a
-          get_by_hash that found nothing), then n=<num_nodes> h=<hits>;  PANIC when the model
+          get_by_hash that found nothing), then n=<num_nodes> h=<hits> order=<classes of the stored
+          ids in slot order>;  PANIC when the model
           reports the u8 psl overflow;  sweep: n=<histories> digest=<fnv1a-64 of the lines> *)
 type op = I of n * n | G of n
 
@@ -37,7 +38,11 @@ let history (c : nat) (ops : op list) : string =
                | None -> Buffer.add_string buf " ?"))
          | PslOverflow -> raise Overflow
          | OutOfFuel -> raise Fuel)) ops;
-    Buffer.add_string buf (Printf.sprintf " n=%d h=%d" (int_of_nat (num_nodes !t)) (int_of_nat (!t).hits));
+    Buffer.add_string buf (Printf.sprintf " n=%d h=%d order=" (int_of_nat (num_nodes !t)) (int_of_nat (!t).hits));
+    let ord = List.filter_map (fun s -> match s.sid with
+        | Some id -> Some (match Hashtbl.find_opt first (int_of_nat id) with Some c -> string_of_int c | None -> "?")
+        | None -> None) (!t).tbl in
+    Buffer.add_string buf (String.concat "," ord);
     String.trim (Buffer.contents buf)
   with Overflow -> "PANIC" | Fuel -> "OUTOFFUEL"
 
